@@ -209,6 +209,8 @@ def gen_sched_case(seed: int, max_ops: int = 40, max_jobs: int = 6, *, failures:
                 if failures and rnd.random() < fail_p:
                     tf = sorted(rnd.sample(range(0, 6), rnd.randint(1, 3)))
                     expect_fail = expect_fail or 0 in tf
+                    if rnd.random() < 0.3:
+                        tf = [f'p{rnd.randint(1, 4)}']       # a permanent failure from the k-th query on
             csv = lambda xs: ','.join(map(str, xs)) if xs else '-'   # noqa: E731
             emit(f'create {h} {"-" if key is None else key} {spec} {csv(ef)} {csv(tf)}')
             emit('yield')
